@@ -22,7 +22,9 @@ UNQ = ["a", "a1_", "-Dx=y", "a;b", "a\;b", "a\\ b", "\\#", "\\(", "\\\"", "\\\\"
        # characters that Python's str.splitlines()/isspace() treat as separators but CMake as ordinary text
        "a\x0cb", "a\u2028b", "a\x85b", "a\x0bb", "a\xa0b", "*values", "x**2", "out[", "a|b+c?", "^x$",
        # characters for which str.isdigit()/isnumeric() are true but int() fails or means something else
+       "\u0130stanbul", "\u212a", "\u1e9e", "\ufb01le", "\u03a3\u03c2", "\u01c5",
        "\u00b2", "\u2460", "\u0663", "12", "007", "1e3", "-1", "+1", "0x1f", "\uff11", "\u00bd", "True", "None", "nan"]
+CASEODD = ["\u0130stanbul", "\u212a", "\u1e9e", "\ufb01le", "\u03a3\u03c2", "\u01c5"]    # code points whose lower()/upper()/casefold() change length or script
 NUMLIKE = ["\u00b2", "\u2460", "\u0663", "12", "007", "1e3", "-1", "+1", "0x1f", "\uff11", "\u00bd", "True", "None", "nan"]
 QUO = ['"\u00b2"', '"\u2460\u2461"', '"12"', '"\n#[[[ usage\n#]]\n"', '"x\x0cy\u2029z"', '""', '"a b"', '"a#b"', '"a;b"', '"(x)"', '"[[x]]"', '"\\"q\\""', '"\\(x\\)"', '"l1\nl2"', '"c\\\nd"', '"ü✓"']
 BRA = ["[[\n#[[[ usage\n]]", "[=[\n]=]", "[[\n]]", "[[a]]", "[[a;b]]", "[[a(b]]", '[[ "x ]]', "[=[a]]b]=]", "[==[\nx\n]==]", "[[#c]]"]
@@ -36,6 +38,7 @@ COMMENTS = [" ", "\n", "\n\n", " # c\n", "#\n", "#[\n", "#[=\n", "#[=x\n", "# #[
             "#[[ b ]]", "#[[ #[[[ x ]]", "#[=[ ]] ]=]", "#[==[\nmulti\n]==]", "# café ✓\n", "#[[[x]]",
             "#[[[x]]\n#]]\n", "#[=[[x]=]", "#[[\n]]", "#[[]]", "# \"unterminated\n", "#(\n", "#\\q\n",
             "#[==[\n#[[[\n# doc\n#]]\nfunction(f)\nendfunction()\n]==]", "#[=[\n  #[[[ @module x\n]=]",
+            "# \u0130stanbul \u212a \ufb01le\n", "#[[ \u0130 ]]",
             "# path C:\\tools\\\n", "#\\\n", "# ff\x0c set(Z 1)\n", "# ls\u2028 stray (\n", "#[[ nel\x85 ]]", "# vt\x0b\"\n"]
 
 
@@ -212,6 +215,24 @@ def doc_shape_files():
         out.append((f"doccomment shape {d!r} inside a class", f"cpp_class(K)\n{d}\ncpp_attr(K a v)\n{d}\ncpp_member(m K)\nfunction(\"${{m}}\" self)\nendfunction()\ncpp_end_class()\n"))
         if d.startswith("#[[[\n") or d.startswith("#[[[ @"):
             out.append((f"module doccomment shape {d!r}", d.replace("#[[[", "#[[[ @module", 1).replace("@module @brief x", "@module nm") + "\nset(V 1)\n"))
+    return out
+
+
+def keyword_tail_files():
+    """documented set()/option()/test commands whose keyword arguments are followed by variable references instead of the
+    literal values a processor may expect"""
+    d = "#[[[\n# doc\n#]]\n"
+    out = []
+    for tail in ("CACHE ${args}", "CACHE", "CACHE BOOL", "CACHE ${t} ${d} FORCE", "${v} CACHE", "PARENT_SCOPE ${x}", "${kw}"):
+        out.append((f"documented set with tail {tail!r}", f"{d}set(W \"/opt\" {tail})\n"))
+        out.append((f"documented set (no value) with tail {tail!r}", f"{d}set(W {tail})\n"))
+    for args in ("${ARGN} LABELS portable", "${ARGN}", "${name} EXPECTFAIL", "LABELS a b", "name_without_keyword x"):
+        for doc in ("", d):
+            out.append((f"ct_add_test({args})", f"{doc}ct_add_test({args})\nfunction(${{t}})\n{doc}ct_add_section({args})\nfunction(${{s}})\nendfunction()\nendfunction()\n"))
+            out.append((f"add_test({args})", f"{doc}add_test({args})\n"))
+    for args in ("${o}", "${o} ${h}", "O \"h\" ${d} extra", "O"):
+        for doc in ("", d):
+            out.append((f"option({args})", f"{doc}option({args})\n"))
     return out
 
 
@@ -527,11 +548,12 @@ def run(ctx):
     for (label, text), r in zip(cf, ctx.sweep(check_file, cf, space="comment shapes", selftest=10)):
         pass
     ctx.sweep(check_file, block_files(), space="block structures x command-name case", selftest=3)
-    ctx.sweep(check_file, documented_uses(LEX if not quick else [l for l in LEX if l in CORE or l in BRA or l in QUO or l in ("[", "*values", "out[", "x**2") or l in NUMLIKE]),
+    ctx.sweep(check_file, documented_uses(LEX if not quick else [l for l in LEX if l in CORE or l in BRA or l in QUO or l in ("[", "*values", "out[", "x**2") or l in NUMLIKE or l in CASEODD]),
               space="documented commands x lexemes", selftest=3)
     ctx.sweep(check_file, boundary_files(), space="multi-byte characters at buffer boundaries", selftest=2)
     ctx.sweep(check_file, redefinition_files(), space="a name defined more than once", selftest=2)
     ctx.sweep(check_file, named_end_files(), space="named end commands", selftest=2)
+    ctx.sweep(check_file, keyword_tail_files(), space="variable references where literal keyword values are usual", selftest=2)
     ctx.sweep(check_file, doc_shape_files(), space="doccomment shapes x command kinds", selftest=2)
     ctx.sweep(check_def_params, [l for l in LEX if not l.startswith("(")], space="definition parameters x lexemes", selftest=2)
     ctx.sweep(check_file, processor_files(), space="every specially processed command name x arity x context", selftest=2)
